@@ -1,5 +1,6 @@
 /- Lemmas about the package layer (Model/Packages.lean), shared by Props/C06.lean and Props/C07.lean. -/
 import LdkModel.Model.Packages
+import LdkModel.Proofs.Package
 namespace Ldk.Packages
 open Ldk Ldk.Pkg Ldk.PkgLayer Ldk.JusticeGen
 
@@ -1091,5 +1092,43 @@ theorem aggregate_never_drops (cur : Nat) (reqs : List (Package α)) (x : α) :
   have := aggregateRev_mem cur reqs.length reqs.reverse x
   simp only [List.mem_flatMap, List.mem_reverse] at this ⊢
   exact this
+
+/-! ### the arithmetic half of "consensus-valid": output value and fee of a self-funded (justice) claim -/
+
+omit [DecidableEq α] in
+/-- what `compute_package_output` (translated) answers: the output is never below the dust limit; it is the inputs minus a fee that
+    covers the recorded feerate over the PREDICTED weight — hence over every actual weight that is not larger (the code asserts
+    `predicted_weight >= transaction.weight()`; the harness compares `package_weight` (translated) with every broadcast) —; on the first
+    issue the fee is at most half of the inputs. -/
+theorem package_output_sound (amt w dust prev : Nat) (s : FeerateStrategy) (est out rate : Nat)
+    (h : computePackageOutput amt w dust prev s est = some (out, rate)) :
+    dust ≤ out ∧ ∃ fee, out = Nat.max (amt - fee) dust ∧ (∀ actual, actual ≤ w → rate * actual / 1000 ≤ fee) ∧
+      (prev = 0 → fee ≤ amt / 2) := by
+  obtain ⟨fee, hout, hcase⟩ := computePackageOutput_some h
+  refine ⟨by rw [hout]; exact Nat.le_max_right _ _, fee, hout, ?_, ?_⟩
+  · intro actual hact
+    have hle : rate * actual / 1000 ≤ rate * w / 1000 := Nat.div_le_div_right (Nat.mul_le_mul_left _ hact)
+    refine Nat.le_trans hle ?_
+    rcases hcase with ⟨_, hb⟩ | ⟨_, hc⟩
+    · rcases feerateBump_shape hb with ⟨h1, h2⟩ | h1
+      · rw [h1, h2]; exact Nat.le_refl _
+      · rw [h1]
+        calc fee * 1000 / w * w / 1000 ≤ fee * 1000 / 1000 := Nat.div_le_div_right (Nat.div_mul_le_self _ _)
+          _ = fee := Nat.mul_div_cancel _ (by decide)
+    · obtain ⟨_, h2, _⟩ := computeFee_some hc
+      rw [h2]; exact Nat.le_refl _
+  · intro hp
+    rcases hcase with ⟨hne, _⟩ | ⟨_, hc⟩
+    · exact absurd hp hne
+    · obtain ⟨h1, h2, _⟩ := computeFee_some hc
+      have hr : rate ≤ (amt / 2) * 1000 / w := by
+        rw [h1]
+        refine Nat.le_trans (Nat.min_le_right _ _) ?_
+        unfold computeFeerateSatPer1000Weight
+        exact Nat.min_le_left _ _
+      rw [h2]
+      calc rate * w / 1000 ≤ (amt / 2 * 1000 / w) * w / 1000 := Nat.div_le_div_right (Nat.mul_le_mul_right _ hr)
+        _ ≤ amt / 2 * 1000 / 1000 := Nat.div_le_div_right (Nat.div_mul_le_self _ _)
+        _ = amt / 2 := Nat.mul_div_cancel _ (by decide)
 
 end Ldk.Packages
